@@ -5,7 +5,7 @@ import ast
 import xml.etree.ElementTree as ET
 
 from ..cells import top_level_classes
-from ..core import AnalysisError, U, calls_in, canon_guards, enclosing_loops, guards_of, iter_stmts, parent, walk_no_defs
+from ..core import AnalysisError, U, calls_in, canon_guards, enclosing_loops, expand_temps, flatten_boolops, guards_of, iter_stmts, parent, walk_no_defs
 from ..tables import Tables
 from . import c01
 
@@ -299,7 +299,7 @@ def check(prog, rep):
     def norm(test, pol):
         while isinstance(test, ast.UnaryOp) and isinstance(test.op, ast.Not):
             test, pol = test.operand, not pol
-        return U(test), pol
+        return U(flatten_boolops(test)), pol
 
     def silent_exits(loop, closed):
         """continue/break statements of `loop` that are neither covered by a closed reason nor announced by a warning."""
@@ -309,6 +309,7 @@ def check(prog, rep):
                 continue
             n_exit += 1
             gs = {norm(tst, pol) for tst, pol in guards_of(st, loop)}
+            gs |= {norm(expand_temps(tst, ah), pol) for tst, pol in guards_of(st, loop)}  # (a test hoisted into a local also reads as the test itself)
             blk = parent(st)
             sibs = getattr(blk, "body", []) if st in getattr(blk, "body", []) else getattr(blk, "orelse", [])
             warned = any(U(c.func) in ("_LOGGER.warning", "_LOGGER.error") for x in sibs[: sibs.index(st)] for c in calls_in(x)) if st in sibs else False
@@ -319,6 +320,7 @@ def check(prog, rep):
     closed_h = {("atomname.startswith('H')", False), ("residue.has_atom(atomname)", True),
                 ("isinstance(residue, aa.CYS) and (residue.ss_bonded and atomname == 'HG')", True),
                 ("isinstance(residue, aa.CYS) and residue.ss_bonded and (atomname == 'HG')", True),
+                ("isinstance(residue, aa.CYS) and residue.ss_bonded and atomname == 'HG'", True),
                 ("residue.rebuild_tetrahedral(atomname)", True)}  # the last one: the hydrogen has just been built
     bad_h, n_h = silent_exits(inner[0], closed_h)
     r5.add("skip-set", not bad_h and n_h >= 3, f"{n_h} exits of the per-hydrogen loop: each is one of the closed reasons (not a hydrogen, already "
